@@ -101,6 +101,10 @@ var ExcludedForms = []ExcludedForm{
 	{"dash_json_after", "DashK%d *int32 `parquet:\"-\" json:\"k\"`", ""},
 	{"dash_slice", "DashS%d []string `parquet:\"-\"`", ""},
 	{"dash_iface", "DashI%d interface{} `parquet:\"-\"`", ""},
+	{"multi_name_unexported", "ma%d, mb%d int32", ""},
+	// "share": the excluded name is ADDED TO THE DECLARATION of the exported field that follows
+	// (F1 int32 becomes F1, hid1 int32); at the end of a struct it degrades to an inserted field
+	{"multi_name_share", "hid%d", ""},
 }
 
 // Variant is a decorated copy of a base shape.
@@ -128,10 +132,20 @@ func ExcludedVariants(forest []*Node, o EmitOpts, rot int) []Variant {
 			k++
 			d := cloneDecls(base)
 			line := form.Decl
-			if strings.Contains(line, "%d") {
+			if strings.Count(line, "%d") == 2 {
+				line = fmt.Sprintf(line, 1, 1)
+			} else if strings.Contains(line, "%d") {
 				line = fmt.Sprintf(line, 1)
 			}
-			d[di].Fields = insertAt(d[di].Fields, pos, line)
+			if form.Name == "multi_name_share" {
+				if pos < len(d[di].Fields) {
+					d[di].Fields[pos] = shareDecl(d[di].Fields[pos], line)
+				} else {
+					d[di].Fields = insertAt(d[di].Fields, pos, line+" int64")
+				}
+			} else {
+				d[di].Fields = insertAt(d[di].Fields, pos, line)
+			}
 			var imps []string
 			if form.Import != "" {
 				imps = []string{form.Import}
@@ -151,7 +165,14 @@ func ExcludedVariants(forest []*Node, o EmitOpts, rot int) []Variant {
 			form := ExcludedForms[(rot+n)%len(ExcludedForms)]
 			n++
 			line := form.Decl
-			if strings.Contains(line, "%d") {
+			if form.Name == "multi_name_share" {
+				// in the all-positions variant the shared declaration would collide with the
+				// insertion before the same field: use the unexported pair instead
+				line = "ma%d, mb%d int32"
+			}
+			if strings.Count(line, "%d") == 2 {
+				line = fmt.Sprintf(line, n, n)
+			} else if strings.Contains(line, "%d") {
 				line = fmt.Sprintf(line, n)
 			} else if form.Name == "blank" && containsLine(nf, line) {
 				line = fmt.Sprintf("x%d int32", n)
@@ -220,4 +241,13 @@ func EmbedVariants(forest []*Node, o EmitOpts) []Variant {
 		}
 	}
 	return out
+}
+
+// shareDecl turns "F1 *int32" into "F1, hid1 *int32".
+func shareDecl(field, extra string) string {
+	i := strings.Index(field, " ")
+	if i < 0 {
+		return field
+	}
+	return field[:i] + ", " + extra + field[i:]
 }
